@@ -356,6 +356,19 @@ class Scenario:
                     raise ValueError(k)
             await asyncio.sleep(self.settle)
             me = asyncio.current_task()
+            # after the script: whatever is still queued on an open pull-mode session (taken with receive_msg_nowait,
+            # outside the logged run)
+            drained = []
+            if not s.is_closed() and not s._msg_queue.is_dispatching() and all(t.done() for t in receivers):
+                try:
+                    while True:
+                        m = s.receive_msg_nowait()
+                        if m is None:
+                            break
+                        drained.append(self.codec.number(m))
+                except Exception as e:   # noqa
+                    drained.append('raised:' + err_name(e))
+            result['drained'] = drained
             result['closed'] = s.is_closed()
             result['tcloses'] = len(tr.closes)
             result['writes'] = list(tr.writes)
@@ -444,6 +457,9 @@ def compare(cfg, result, ans):
         alive_i = sorted(a for a in result['alive'] if a in ('R', 'D', 'L', 'M', 'C', 'V'))
         if alive_m != alive_i:
             out.append(f'library tasks alive at the end: implementation {alive_i}, model {alive_m}')
+        if result.get('drained') is not None and not result['closed'] and 'D' not in alive_i \
+                and [str(x) for x in result['drained']] != list(final.get('queue', [])) and final.get('runnable', []) == [] :
+            out.append(f'messages still queued at the end: implementation {result["drained"]}, model {final.get("queue")}')
         if (final['closed'] == ['true']) != result['closed']:
             out.append(f'is_closed(): implementation {result["closed"]}, model {final["closed"]}')
     return out
